@@ -77,6 +77,9 @@ LITERALS = [
     ("squote-multiline", "SELECT 'first\nsecond $v1\nthird $nosuchvar'", "first\nsecond $v1\nthird $nosuchvar"),
     ("dquote-identifier", 'SELECT 1 AS "cost $v1"', 1),
     ("line-comment", "SELECT 'x' -- it's $nosuchvar here\n", "x"),
+    ("dollar-inside-identifier", "SELECT 5 AS col$v1", 5),
+    ("dollar-inside-identifier-undefined", "SELECT 6 AS amt$nosuchvar", 6),
+    ("dollar-inside-column-name", "SELECT t.c$v1 FROM (SELECT 8 AS c$v1) t", 8),
     ("block-comment", "SELECT /* don't $nosuchvar */ 'y'", "y"),
 ]
 
